@@ -58,7 +58,8 @@ def flatten(prog: dict, ext_default=("SUCCEEDED",)):
             base("CBRESULT", path + "#r", parent, cb=ci, caught=bool(node.get("caught")))
             return extra
         elif k == "child":
-            bi = base("CHILD_BEGIN", path, parent, caught=bool(node.get("caught")), large=bool(node.get("large")),
+            bi = base("CHILD_BEGIN", path, parent, caught=bool(node.get("caught")),
+                      large=bool(node.get("large")) or int(node.get("ser_size", 0)) > 256 * 1024,
                       raises=bool(node.get("raises")))
             walk(node.get("body", []), path + "/", bi)
             ei = base("CHILD_END", path + "#e", parent, begin=bi)
@@ -76,7 +77,8 @@ def flatten(prog: dict, ext_default=("SUCCEEDED",)):
         return 0
 
     walk(prog["nodes"], "", 0)
-    base("END", "", 0, large=bool(prog.get("final_large")), raises=bool(prog.get("final_raise")))
+    base("END", "", 0, large=bool(prog.get("final_large") or prog.get("final_raise_large")),
+         raises=bool(prog.get("final_raise") or prog.get("final_raise_large")))
     return out
 
 
